@@ -5,6 +5,7 @@ R3 declared operands; R4 unique names; R5 stage rules; R6 queries are pure."""
 from __future__ import annotations
 
 import ast
+import re
 
 from ..effects import receiver_effects
 from ..flow import MUTATOR_METHODS, Param, Ref, LoopVar, deep_walk, strip_refs, show, facts_at
@@ -185,6 +186,17 @@ def run(ctx):
         a = c.args[0] if c.args else None
         from_result = any(isinstance(n, ast.Call) and _is_operation(n.orig if hasattr(n, 'orig') else n) for n in deep_walk(a)) \
             if a is not None else False
+        # a set of the step record handed over whole: whatever was put into it after the operations ran counts
+        # (names read from step.frm / step.to then, which hold the results of the step as well)
+        raw = c.orig.args[0] if hasattr(c, 'orig') and c.orig.args else (c.args[0] if c.args else None)
+        if not from_result and isinstance(raw, ast.Attribute) and isinstance(raw.value, ast.Name) and raw.value.id == 'step':
+            op_lines = [s2.lineno for c2, s2, b2 in ffb.calls if _is_operation(c2.orig if hasattr(c2, 'orig') else c2)]
+            for c2, s2, b2 in ffb.calls:
+                o2 = c2.orig if hasattr(c2, 'orig') else c2
+                if isinstance(o2.func, ast.Attribute) and o2.func.attr in ('add', 'update') and \
+                        unparse(o2.func.value, 60) == unparse(raw, 60) and op_lines and s2.lineno > max(op_lines) and \
+                        o2.args and re.search(r"step\.(to|frm)\b", unparse(o2.args[0], 200)):
+                    from_result = True
         ctx.ob('C16.R2', bake, s.lineno, f"name marked used `{show(a, 30)}` is a declared name of the step", not from_result,
                fact='derived from the step record' if not from_result else 'derived from the result of an operation',
                why='a name that was never declared enters the used set: the size comparison with the declared objects no '
